@@ -7,7 +7,7 @@
    R = resource exhaustion (recorded finding). *)
 From Coq Require Import String List.
 Import ListNotations.
-Open Scope string_scope.
+Local Open Scope string_scope.
 
 Definition expected : list (string * string) := [
   ("src/common/fragment.rs::reassemble::split_to#1", "M FragProofs.reassemble_safe: length >= 4 is checked before split_to/get_*");
